@@ -40,6 +40,17 @@ func withHdr(r *env.Rpc, k, v string) *env.Rpc {
 	return r
 }
 
+// streamKind: the method an opening shape addresses (the harness's service reports a handler of another method)
+func (sh c12Shape) streamKind() string {
+	switch sh.name {
+	case "open-sstream":
+		return "SStream"
+	case "open-cstream":
+		return "CStream"
+	}
+	return "Bidi"
+}
+
 var c12Shapes = []c12Shape{
 	{name: "valid-unary", build: func(id uint64, tag string) *env.Rpc { return env.ReqUnary(id, tag, "x") }, unaryMust: true},
 	{name: "no-header", build: func(id uint64, tag string) *env.Rpc { r := env.ReqUnary(id, tag, "x"); r.Header = nil; return r }},
@@ -226,7 +237,7 @@ func c12SeqT(first int, firstID uint64, maxLen, bound int, burst bool) *explore.
 					rec = w.Rec(tag, "Unary")
 				}
 				if (sh.opens || sh.opensMay) && (!open || burst) {
-					rec = w.Rec(tag, "Bidi")
+					rec = w.Rec(tag, sh.streamKind())
 					streamRec[id] = rec
 					if burst {
 						w.Handlers[tag] = env.HReturnAfter(1, nil)
@@ -256,6 +267,11 @@ func c12SeqT(first int, firstID uint64, maxLen, bound int, burst bool) *explore.
 					vsched.Fail(fam+"|stream-not-started", "after%s: the handler for the opened stream started %d times", seq, rec.HStarts)
 				case sh.body && !open && countResets(d, id) != resetsBefore+1:
 					vsched.Fail(fam+"|no-reset-for-unknown-stream", "after%s: a body for a stream the server does not know must be answered by a reset for id %d (resets before %d, after %d)", seq, id, resetsBefore, countResets(d, id))
+				}
+				if (sh.name == "reset" || sh.name == "trailer-ok") && open && !streamRec[id].HReturned {
+					// the reference is the envelope sequence, not the server's own idea of what is open: a reset (or the
+					// peer's half-close) ends the stream whatever its handler is doing, so the id is free for the next open
+					vsched.Fail(fam+"|stream-not-ended", "after%s: the %s stream on id %d was sent a %s but its handler is still running (%s)", seq, streamRec[id].Kind, id, sh.name, streamRec[id].Summary())
 				}
 			}
 			vsched.Quiesce()
@@ -797,7 +813,7 @@ func c12Long(mode string) *explore.Scenario {
 					w.Rec(tag, "Unary")
 				}
 				if sh.opens || sh.opensMay {
-					w.Rec(tag, "Bidi")
+					w.Rec(tag, sh.streamKind())
 				}
 				if err := d.Pipe.A.Inject(sh.build(st.id, tag)); err != nil {
 					vsched.Fail(fam+"|harness", "inject failed: %v", err)
